@@ -1224,21 +1224,22 @@ func (r *RangeEntry) String() string {
 var errNotExpectedValue = errors.New("not expected value")
 
 func (r *RangeEntry) CheckValue(v val.Value) error {
-	if !r.Exact.Empty() {
+	if !r.Exact.Empty() && !r.Exact.isMin && !r.Exact.isMax {
 		if cmp, err := r.Exact.Compare(v); err != nil {
 			return err
 		} else if cmp != 0 {
 			return errNotExpectedValue
 		}
 	}
-	if !r.Min.Empty() {
+	// "min" and "max" stand for the bounds of the base type which every value already meets
+	if !r.Min.Empty() && !r.Min.isMin {
 		if cmp, err := r.Min.Compare(v); err != nil {
 			return err
 		} else if cmp > 0 {
 			return errOutsideRange
 		}
 	}
-	if !r.Max.Empty() {
+	if !r.Max.Empty() && !r.Max.isMax {
 		if cmp, err := r.Max.Compare(v); err != nil {
 			return err
 		} else if cmp < 0 {
